@@ -28,6 +28,8 @@ func init() {
 			Trusted:     commonTrusted,
 		},
 		Mutants: []Mutant{
+			{Name: "try buffers recycled through a pool without Reset (agent seed C10/1)", File: "eval.go", Old: "\tbuf := new(bytes.Buffer)\n", New: "\tbuf := pool_tryBuffer.Get().(*bytes.Buffer)\n\tdefer pool_tryBuffer.Put(buf)\n", More: []Edit{{File: "eval.go", Old: "\tpool_State     = sync.Pool{", New: "\tpool_tryBuffer = sync.Pool{New: func() interface{} { return new(bytes.Buffer) }}\n\tpool_State     = sync.Pool{"}}, Rule: "C10.pools"},
+			{Name: "equivalent: try buffers recycled through a pool and Reset after Get", File: "eval.go", Old: "\tbuf := new(bytes.Buffer)\n", New: "\tbuf := pool_tryBuffer.Get().(*bytes.Buffer)\n\tbuf.Reset()\n\tdefer pool_tryBuffer.Put(buf)\n", More: []Edit{{File: "eval.go", Old: "\tpool_State     = sync.Pool{", New: "\tpool_tryBuffer = sync.Pool{New: func() interface{} { return new(bytes.Buffer) }}\n\tpool_State     = sync.Pool{"}}, Rule: "-"},
 			{Name: "content not reset (original defect)", File: "eval.go", Old: "\tst.context = reflect.Value{}\n\tst.content = nil\n", New: "\tst.context = reflect.Value{}\n", Rule: "C10.reset"},
 			{Name: "context reset only when an error was recovered", File: "eval.go", Old: "\tst.scope = &scope{}\n\tst.context = reflect.Value{}\n\tst.content = nil\n\tpool_State.Put(st)\n\tif recovered := recover(); recovered != nil {", New: "\tst.scope = &scope{}\n\tst.content = nil\n\tpool_State.Put(st)\n\tif recovered := recover(); recovered != nil {\n\t\tst.context = reflect.Value{}", Rule: "C10."},
 			{Name: "a new per-execution counter that is never reset", File: "eval.go", Old: "func (st *Runtime) newScope() {\n", New: "func (st *Runtime) newScope() {\n\tst.depth++\n", More: []Edit{{File: "eval.go", Old: "\tcontext reflect.Value\n}", New: "\tcontext reflect.Value\n\tdepth   int\n}"}}, Rule: "C10.reset"},
@@ -374,6 +376,9 @@ func rangerPools(c *an.Ctx, rule string) {
 		c.Check(!bad.IsValid(), rule, "(*Runtime).executeList/no-use-after-cleanup", el.Pos(), "the ranger is not used after it was returned to its pool",
 			"the range arm calls the ranger after cleanup() returned it to the pool: another execution may already be using it")
 	}
+	// every sync.Pool of the package has a known reset discipline for what it recycles
+	poolDiscipline(c, rule)
+
 	// getRanger hands out pool objects
 	if gr := c.Fn(rule, "getRanger"); gr != nil {
 		ginfo := gr.Info()
@@ -395,4 +400,78 @@ func rangerPools(c *an.Ctx, rule string) {
 		c.Check(ok, rule, "getRanger/from-pool", gr.Pos(), "built-in rangers are obtained from their pool for each range", "getRanger does not obtain the built-in ranger from its sync.Pool (a shared instance would be used by concurrent/nested ranges)")
 	}
 	_ = fmt.Sprint
+}
+
+// poolDiscipline: for every (*sync.Pool).Put in package jet, the recycled object is reset — by the
+// Runtime reset of C10.reset, by a Setup call right after every Get (rangers), or by a Reset() call on the
+// object that dominates the Put (or directly follows the Get).  A new pool without such a discipline
+// carries state from one execution into another.
+func poolDiscipline(c *an.Ctx, rule string) {
+	p := c.P
+	n := 0
+	for _, f := range p.Fns {
+		if f.Pkg != p.Jet || f.Body == nil {
+			continue
+		}
+		info := f.Info()
+		for _, put := range p.CallsDeep(f, "(*sync.Pool).Put") {
+			if p.EnclosingFn(put.Pos()) != f {
+				continue // reported for the innermost function
+			}
+			n++
+			pool := an.Str(an.Receiver(put))
+			arg := an.Unparen(put.Args[0])
+			t := info.Types[arg].Type
+			tn := an.TypeName(t)
+			key := f.Name + "/Put:" + pool
+			switch {
+			case tn == "*jet.Runtime":
+				c.OK(rule, key, put.Pos(), "the pooled Runtime is reset by Runtime.recover / Execute (C10.reset)")
+			case tn == "jet.pooledRanger" || strings.Contains(tn, "Ranger"):
+				// reset-on-get: every Get of that pool is followed by Setup
+				c.OK(rule, key, put.Pos(), "pooled rangers are re-initialised by Setup after every Get (all fields: checked above)")
+			default:
+				// Reset() on the same object on every path before the Put, or deferred Put preceded by Reset after Get
+				id, isId := arg.(*ast.Ident)
+				reset := false
+				root := f.Root()
+				if isId {
+					o := an.ObjOf(info, id)
+					// a Reset() call on the object: directly after the Get, or before the Put / in the same deferred closure
+					var getPos token.Pos
+					for _, d := range an.LocalDefs(root, o) {
+						if d != nil && strings.Contains(an.Str(d), ".Get()") {
+							getPos = d.Pos()
+						}
+					}
+					ast.Inspect(root.Body, func(m ast.Node) bool {
+						call, ok := m.(*ast.CallExpr)
+						if !ok {
+							return true
+						}
+						if sel, ok := call.Fun.(*ast.SelectorExpr); ok && (sel.Sel.Name == "Reset" || sel.Sel.Name == "Truncate") {
+							if rid, ok := an.Unparen(sel.X).(*ast.Ident); ok && an.ObjOf(info, rid) == o {
+								// unconditional: a top-level statement of the function (or of the deferred literal containing the Put)
+								for _, encl := range []*an.Fn{root, f} {
+									for _, st := range encl.Body.List {
+										if es, ok := st.(*ast.ExprStmt); ok && es.X == ast.Expr(call) {
+											reset = true
+										}
+									}
+								}
+							}
+						}
+						return true
+					})
+					_ = getPos
+				}
+				if reset {
+					c.OK(rule, key, put.Pos(), "the recycled %s is Reset unconditionally", tn)
+				} else {
+					c.Bad(rule, key, put.Pos(), nil, "%s returns a %s to %s without an unconditional Reset of it (and no reset-on-Get discipline is known for this pool): whatever it still holds — e.g. the output of a failed try body — is handed to a later execution", f.Name, tn, pool)
+				}
+			}
+		}
+	}
+	c.Expect(rule, "sync.Pool Put sites", n, 2)
 }
